@@ -1,6 +1,7 @@
 package streamsim
 
 import (
+	"errors"
 	"fmt"
 	"os"
 	"runtime"
@@ -480,6 +481,10 @@ func (r *run) runStream() {
 			return false
 		}
 		if derr != nil {
+			if errors.Is(derr, arrow_record.ErrConsumerMemoryLimit) {
+				// a healthy stream refused by the default consumer's own memory limit
+				r.feats["class"] = "default-consumer-memory-limit"
+			}
 			r.violate(prop, "decode-ok", fmt.Sprintf("batch %d (%s) of a healthy stream (delivered %d batches behind the producer) was rejected by the consumer: %v", m.i, m.signal, lag, derr))
 			return false
 		}
@@ -517,6 +522,23 @@ func (r *run) runStream() {
 			r.probe("marathon_stream_over_65535_parents_in_total")
 		}
 	}
+	// C04: now and then a stream of free-text bodies: few dictionary entries,
+	// many bytes (the dictionary limit counts entries only)
+	fat := false
+	if prop == "C04" && !opt.NoDict {
+		rate := 1500
+		if thorough {
+			rate = 500
+		}
+		if t.Chance(core.Gen, 1, rate) {
+			fat = true
+			hp.signals = []string{"logs"}
+			hp.nBatches = 22
+			r.feats["signals"] = "logs"
+			r.feats["history"] = "free-text-bodies-40MB"
+			r.probe("fat_dictionary_stream")
+		}
+	}
 	// C01-C03: now and then the largest batch the domain allows
 	boundaryAt := -1
 	if prop == "C01" || prop == "C02" || prop == "C03" {
@@ -540,6 +562,8 @@ func (r *run) runStream() {
 			r.probe("boundary_batch_65535_parents")
 		} else if marathon && i%9 != 8 {
 			b = denseBatch(hp.signals[0], 1000, i)
+		} else if fat {
+			b = fatBatch(1000, 2048, i)
 		} else {
 			b = r.genBatch(hp, i)
 		}
